@@ -4,17 +4,19 @@ import core, tlc
 import prattfam as pf
 
 INV = "PrattAgreesWithGrammar RenderRoundTrip"
+OPS_FILE = os.path.join(tlc.SPEC, "mc", "bigtable.json")
+PRE_OPS_FILE = os.path.join(tlc.SPEC, "mc", "bigtable-pre.json")
 
 
-def render_replay(run, name, recs, ops_file=None, table="BuiltinTable"):
+def render_replay(run, name, recs, ops_file=None, table="BuiltinTable", pre_ops_file=None):
     path = os.path.join(tlc.WORK, "render-replay-%s.ndjson" % name)
     tpath = os.path.join(tlc.WORK, "render-trace-%s.ndjson" % name)
     core.write_ndjson(path, recs)
-    out, _ = core.run_vh(["render-replay", path, "--seed", run.seed, "--trace-out", tpath] + (["--ops-file", ops_file] if ops_file else []))
-    finish(run, name, out, tpath, "replay", ops_file, table)
+    out, _ = core.run_vh(["render-replay", path, "--seed", run.seed, "--trace-out", tpath] + (["--ops-file", ops_file] if ops_file else []) + (["--pre-ops-file", pre_ops_file] if pre_ops_file else []))
+    finish(run, name, out, tpath, "replay", ops_file, table, pre_ops_file)
 
 
-def finish(run, name, out, tpath, kind, ops_file=None, table="BuiltinTable"):
+def finish(run, name, out, tpath, kind, ops_file=None, table="BuiltinTable", pre_ops_file=None):
     summ = [o for o in out if "summary" in o]
     if not summ:
         raise tlc.ToolError("render-%s produced no summary (%s)" % (kind, name))
@@ -23,7 +25,7 @@ def finish(run, name, out, tpath, kind, ops_file=None, table="BuiltinTable"):
     run.evaluations += s["checked"]
     for o in out:
         if "mismatch" in o:
-            run.violation("C12/render/%s" % kind, "%s (program %r)" % (o["why"], o["text"]), {"family": "render", "text": o["text"], "why": o["why"], "ops_file": ops_file})
+            run.violation("C12/render/%s" % kind, "%s (program %r)" % (o["why"], o["text"]), {"family": "render", "text": o["text"], "why": o["why"], "ops_file": ops_file, "pre_ops_file": pre_ops_file})
     run.leg("R:render/" + name, checked=s["checked"], mismatches=s["mismatches"], skipped=s["skipped"])
     # the rendered text must *mean* the tree: reference grammar on the tokens of expr()
     trecs = core.read_ndjson(tpath)
@@ -44,6 +46,10 @@ def check(run):
             ("decor", dict(lazy=False, source="DecorSource", firstset="DecorSet"))]
     if thorough:
         fams.append(("triples", dict(lazy=False, source="TripleSource", firstset="TripleSet")))
+    run.rules.append("user operators: all ordered pairs over the 28 registered word operators (adjacent and extreme precedences, both associativities) and 7 built-in representatives in 6 shapes; "
+                     "in the real engine the same names are FIRST registered with other precedences and flipped associativities, every program is parsed and rendered once under that table, "
+                     "and only then the table under test is registered: expr() must follow the registrations in force")
+    fams.append(("user-pairs", dict(lazy=False, source="UPairSource", firstset="UPairSet", table="BigTable")))
     for name, kw in fams:
         res = tlc.run("mc/MCPratt.tla", pf.pratt_cfg("c12-" + name, inv=INV, **kw), workers=16, timeout=2400)
         run.tlc("M:Render/" + name, res)
@@ -52,7 +58,10 @@ def check(run):
             continue
         recs = [r for r in core.tlc_printed_records(res) if r.get("ok")]
         run.nontrivial += sum(1 for r in recs if pf.nontrivial(r, "C12"))
-        render_replay(run, name, recs)
+        if name == "user-pairs":
+            render_replay(run, name, recs, ops_file=OPS_FILE, table="BigTable", pre_ops_file=PRE_OPS_FILE)
+        else:
+            render_replay(run, name, recs)
     tpath = os.path.join(tlc.WORK, "render-trace-random.ndjson")
     out, _ = core.run_vh(["render-record", "--seed", run.seed, "--n", 10000 if thorough else 1500, "--trace-out", tpath])
     finish(run, "random", out, tpath, "record")
@@ -65,7 +74,7 @@ def replay(path, seed):
     import json
     case = json.load(open(path))["case"]
     if case["family"] == "render":
-        out, _ = core.run_vh(["render-one", case["text"]] + (["--ops-file", case["ops_file"]] if case.get("ops_file") else []))
+        out, _ = core.run_vh(["render-one", case["text"]] + (["--ops-file", case["ops_file"]] if case.get("ops_file") else []) + (["--pre-ops-file", case["pre_ops_file"]] if case.get("pre_ops_file") else []))
         print(json.dumps(out, indent=1))
         return 1 if any(o.get("why") for o in out) else 0
     return pf.replay(path, seed)
